@@ -28,7 +28,7 @@ RULE = ("part A: every composition of the frame length as short-write pattern fo
         "pongs = pings, every receiver ends with the connection-closed exception.  non-trivial = a short write happened "
         "or >=1 context switch; distinct = distinct digest of the (thread, step) switch trace, or distinct accept pattern")
 ASSUMPTIONS = ["default thread-safe configuration (enable_multithread=True)",
-               "pre-emption granularity is the source line (opcode-level races inside one line are not explored)"]
+               "pre-emption granularity is the source line (bytecode-level pre-emption crashes CPython 3.12 when the trace function blocks; see DESIGN.md section 9)"]
 EXPECT_PROBES = {"quick": ("lock_contended", "short_write"), "thorough": ("lock_contended", "short_write")}
 POLICIES = [{"kind": "coop", "p_call": 0.3}, {"kind": "prob", "p_line": 1 / 512, "p_call": 0.2},
             {"kind": "prob", "p_line": 1 / 64, "p_call": 0.2}, {"kind": "prob", "p_line": 1 / 8, "p_call": 0.3},
@@ -133,6 +133,8 @@ def genA(rng):
 
 
 def _policy(rng):
+    # bytecode-level pre-emption (frame.f_trace_opcodes) was tried and withdrawn: CPython 3.12 crashes (SIGSEGV) or loses
+    # the hand-over when a trace function blocks inside an 'opcode' event, so the granularity stays at the source line
     return dict(rng.choice(POLICIES))
 
 
